@@ -451,6 +451,26 @@ def mon_c17(h, obs):
         if t.startswith("owner:"):
             ch, _, who = t[6:].partition("=")
             owners[ch] = who
+    # the scenario that hands chain c1 over to a new admin says what it TRIED; whether the chain changed hands is read off what
+    # happened: the two `UpdateAppchain` proposals of the scenario (`q prop` right after each round of votes) — an earlier random call
+    # may have frozen the chain, so that the updates were refused and nothing changed hands: then ca1 is still the admin and its
+    # calls are the owner's calls.  (The role records are NOT the authority here: a removed admin that keeps its record is exactly
+    # what the scenario is there to catch.)
+    also_owner = {}          # chain -> accounts that are (still / also) admins of it
+    if "dropped-admin-scenario" in h.tags and owners.get("c1") != CHAIN_ADMIN["c1"]:
+        newadm = owners["c1"]
+        approved = []
+        for st in steps:
+            if st[0] == "q" and st[1] == "prop" and len(st[4]) > 2 and (st[4][2].startswith("@" + CHAIN_ADMIN["c1"] + "-") or st[4][2].startswith("@" + newadm + "-")):
+                m = re.search(r"status=(\S+) .*ev=(\S+) obj=(\S+)", st[3] or "")
+                approved.append(bool(m and m.group(1) == "approve" and m.group(2) == "update" and m.group(3) == "c1"))
+                if len(approved) == 2:
+                    break
+        approved += [False] * (2 - len(approved))
+        if not approved[0]:
+            owners["c1"] = CHAIN_ADMIN["c1"]           # the new admin never joined: nothing changed hands
+        elif not approved[1]:
+            also_owner["c1"] = {CHAIN_ADMIN["c1"]}     # the new admin joined, the old one was not removed: both are admins
     role_status = {}         # account -> status of its role record as last read back (`q obj role @x`)
     before_logout = {}       # account -> status it had when its logout was requested
     for i, st in enumerate(steps):
@@ -498,7 +518,7 @@ def mon_c17(h, obs):
                 hits.append(Hit(f"C17/foreign-interchain-record-changed/{c}.{m}", f"{c}.{m} by {tx.signer} ({cls}) changed {k}", detail=b.op))
                 break
         # R3: objects of chain c1 are not modified by outsiders or by another chain's admin
-        if cls in ("outsider", "other-chain-admin") and tx.signer != owners.get("c1", CHAIN_ADMIN["c1"]) and (c, m) not in OPEN_WRITERS:
+        if cls in ("outsider", "other-chain-admin") and tx.signer != owners.get("c1", CHAIN_ADMIN["c1"]) and tx.signer not in also_owner.get("c1", ()) and (c, m) not in OPEN_WRITERS:
             for k in changed:
                 if k in d0 and re_c1(k):
                     hits.append(Hit(f"C17/foreign-object-changed/{c}.{m}", f"{c}.{m} by {tx.signer} ({cls}) changed {k}", detail=b.op))
@@ -507,7 +527,7 @@ def mon_c17(h, obs):
         if (c, m) in reserved and len(tx.args) >= reserved[(c, m)]:
             a = tx.args[reserved[(c, m)] - 1]
             chain = a[2:] if a.startswith("s:") else None
-            if chain in owners and tx.signer != owners[chain]:
+            if chain in owners and tx.signer != owners[chain] and tx.signer not in also_owner.get(chain, ()):
                 key = (c, m, tuple(tx.args))
                 if rc.ok:
                     hits.append(Hit(f"C17/reserved-operation-open-to-others/{c}.{m}", f"{c}.{m} about chain {chain} called by {tx.signer} ({cls}) succeeded; it is reserved to {owners[chain]}", detail=b.op))
@@ -521,7 +541,7 @@ def mon_c17(h, obs):
         if (c, m) in (("service", "LogoutService"), ("service", "FreezeService")) and tx.args and tx.args[0].startswith("s:") and tx.args[0].count(":") >= 2:
             chain = tx.args[0][2:].rsplit(":", 1)[0]
             if chain in owners and rc.ok:
-                allowed = {owners[chain]} if m == "LogoutService" else set(CALLERS.get("governance-admin", []) or ["adm0", "adm1", "adm2", "adm3"])
+                allowed = ({owners[chain]} | set(also_owner.get(chain, ()))) if m == "LogoutService" else set(CALLERS.get("governance-admin", []) or ["adm0", "adm1", "adm2", "adm3"])
                 if tx.signer not in allowed:
                     hits.append(Hit(f"C17/reserved-operation-open-to-others/{c}.{m}", f"{c}.{m} about a service of chain {chain} called by {tx.signer} ({cls}) succeeded; the chain's admin is {owners[chain]}", detail=b.op))
         # R5: an operation reserved to governance admins (or a vote) called by an account that holds an admin role record
